@@ -222,7 +222,7 @@ def processes(job, kind, mode, tier):
         # the temperature list comes from a programme instead of the heat balance
         configs += [(2, False, "weight", "polynomial")]
         if tier != "quick":
-            configs += [(1, True, "weight", "polynomial"), (1, False, "molar", "exponential"), (2, True, "weight", "logarithmic")]
+            configs += [(1, True, "weight", "polynomial"), (2, True, "weight", "logarithmic")]
     for n_curves, init_perm, basis, program in configs:
         if True:
             if True:
